@@ -214,7 +214,8 @@ pub fn drive(log: &mut Log) {
     let maxl = if log.opts.thorough() { 3 } else { 2 };
     let strs = all_strings(ac, maxl, true);
     let gaps = [(0, -1), (-1, -1), (-3, 0), (-5, -1), (0, 0)];
-    let subs = [(1, -1), (0, -2), (2, -1)];
+    // the last scheme has a match score near the top of the score type (two matches = 2e9 < 2^31)
+    let subs = [(1, -1), (0, -2), (2, -1), (1_000_000_000, -1)];
     let clipsets: [[i32; 4]; 8] = [
         [MIN_SCORE, MIN_SCORE, MIN_SCORE, MIN_SCORE],
         [0, 0, 0, 0],
@@ -233,13 +234,19 @@ pub fn drive(log: &mut Log) {
                     continue;
                 }
                 for x in &strs {
+                    if m >= 1_000_000_000 && x.len() > 2 {
+                        continue;
+                    }
                     case += 1;
                     if !log.mine(case) {
                         continue;
                     }
+                    if m >= 1_000_000_000 {
+                        log.oblige("match_score_near_the_top_of_i32");
+                    }
                     let sc = Scheme { table: mm_table(2, m, mm), simple: Some((m, mm)), go, ge, clip: *clip };
                     let mut calls = vec![];
-                    for y in &strs {
+                    for y in strs.iter().filter(|y| m < 1_000_000_000 || y.len() <= 2) {
                         for mode in 0..4 {
                             calls.push((mode, x.clone(), y.clone(), None));
                         }
